@@ -98,7 +98,7 @@ class C02(Check):
 
     def _nw(self, tier):
         q = [(1, 1), (1, 2), (2, 1), (1, 3), (2, 2)]
-        return q if tier == 'quick' else q + [(3, 1), (1, 4), (2, 3), (3, 2)]
+        return q if tier == 'quick' else q + [(3, 1), (1, 4), (2, 3), (3, 2), (3, 3), (2, 4), (4, 2), (1, 6)]
 
     def bounds(self, tier):
         return {'(N,W)': self._nw(tier), 'lambda forms': ['scalar', 'symmetric matrix'], 'rho': 'symbolic > 0',
@@ -111,16 +111,16 @@ class C02(Check):
             for lam in ('scalar', 'matrix'):
                 cfgs.append(Config('z_update_N%d_W%d_%s' % (N, W, lam), self.zupdate, {'N': N, 'W': W, 'lam': lam},
                                    nonlinear=True, witness_every=1, robust=True))
-        for n in ([1, 2, 3] if tier == 'quick' else [1, 2, 3, 4]):
+        for n in ([1, 2, 3] if tier == 'quick' else [1, 2, 3, 4, 5, 6]):
             cfgs.append(Config('x_update_identity_n%d' % n, self.xupdate_identity, {'n': n}, nonlinear=True,
                                witness_every=1))
         cfgs.append(Config('x_update_orthogonal_n2', self.xupdate_orth, {}, nonlinear=True, prove_timeout_ms=240000,
                            fork_ite=True, split=1))
         cfgs.append(Config('x_update_kkt_lemma_n2', self.kkt_lemma, {'n': 2}, nonlinear=True, prove_timeout_ms=240000))
-        for L in ([1, 3] if tier == 'quick' else [1, 3, 6]):
+        for L in ([1, 3] if tier == 'quick' else [1, 3, 6, 10]):
             cfgs.append(Config('convergence_L%d' % L, self.convergence, {'L': L}, nonlinear=True, witness_every=2))
         for cb in (False, True):
-            cfgs.append(Config('driver_cb%d' % cb, self.driver, {'cb': cb, 'maxit': 3}, nonlinear=True, split=3))
+            cfgs.append(Config('driver_cb%d' % cb, self.driver, {'cb': cb, 'maxit': 3 if tier == 'quick' else 4}, nonlinear=True, split=3))
         cfgs.append(Config('front_end', self.front_end, {}))
         return cfgs
 
